@@ -40,7 +40,8 @@ type Sub struct {
 
 type Z int
 `,
-		"p/p.go": `// Package p docs
+		"p/p.go": `// Package p docs. It alone enables the generator "na" through a package-level tag.
+// +gengo:na
 package p
 
 // A is documented.
@@ -117,7 +118,7 @@ type Case struct {
 	Gens  []string `json:"generator_order"`
 }
 
-var scripted = []string{"g1", "n1", "p1", "g2"}
+var scripted = []string{"g1", "n1", "p1", "g2", "na"}
 var real = []string{"runtimedoc", "deepcopy", "defaulter"}
 
 func spec(dir string, entry []string, all bool, order []string) pipe.Spec {
@@ -125,7 +126,9 @@ func spec(dir string, entry []string, all bool, order []string) pipe.Spec {
 	var gens []pipe.GenScript
 	var reals []string
 	for _, g := range order {
-		globals["gengo:"+g] = []string{"true"}
+		if g != "na" { // "na" is enabled by package p's own doc tag only
+			globals["gengo:"+g] = []string{"true"}
+		}
 		isReal := false
 		for _, r := range real {
 			if r == g {
@@ -134,6 +137,10 @@ func spec(dir string, entry []string, all bool, order []string) pipe.Spec {
 		}
 		if isReal {
 			reals = append(reals, g)
+			continue
+		}
+		if g == "na" {
+			gens = append(gens, pipe.GenScript{Name: g, Default: pipe.Action{Render: "var NA_$T = 1\n"}})
 			continue
 		}
 		gs := pipe.GenScript{Name: g, Stateful: true, QuietPkgs: []string{modPath + "/o"}, Default: pipe.Action{Render: "var V_$T_$G = \"$P\"\n", Imports: []string{"x.io/dep/$T", "y.io/other/dep"}}}
